@@ -154,29 +154,29 @@ def run(ctx, ck) -> None:
                 pass
         if H is not None:
             ck.expect('M2', H == oracle_hwp(L), f'{HWP}.mv', f'derived Mueller matrix {H} = diag(+,+,-,-) restricted to {L}',
-                      f'derived Mueller matrix {H} differs from the ideal half-wave plate diag(+1,+1,-1,-1) restricted to {L} (only U and V change sign)', instance=tag)
+                      f'derived Mueller matrix {H} differs from the ideal half-wave plate diag(+1,+1,-1,-1) restricted to {L} (only U and V change sign)', instance=tag, semantic=True)
         if R is not None:
             ck.expect('M3', R == oracle_rotation(L, a), f'{ROT}.mv', f'derived matrix rotates (Q,U) by 2a and leaves I,V: {R}',
-                      f'derived matrix {R} is not the rotation of (Q,U) by 2a leaving I and V untouched', instance=tag)
+                      f'derived matrix {R} is not the rotation of (Q,U) by 2a leaving I and V untouched', instance=tag, semantic=True)
         if R is not None and Rt is not None:
             ck.expect('M4', Rt == R.T, f'{ROTT}.mv', 'M(R^T) = M(R)^T for all angles',
-                      f'the transposed rotation {Rt} is not the transpose of the rotation matrix {R.T}', instance=f'{tag} transpose')
-            ck.expect('M4', Rt == oracle_rotation(L, -a), f'{ROTT}.mv', 'R^T(a) = R(-a)', f'R^T(a) = {Rt} is not R(-a)', instance=f'{tag} inverse rotation')
+                      f'the transposed rotation {Rt} is not the transpose of the rotation matrix {R.T}', instance=f'{tag} transpose', semantic=True)
+            ck.expect('M4', Rt == oracle_rotation(L, -a), f'{ROTT}.mv', 'R^T(a) = R(-a)', f'R^T(a) = {Rt} is not R(-a)', instance=f'{tag} inverse rotation', semantic=True)
         if P is not None:
             ck.expect('M5', P == oracle_polarizer(L), f'{PLR}.mv', f'derived row {P} = (I+Q)/2 restricted to {L}',
-                      f'derived detector response {P} is not (I+Q)/2 restricted to {L}', instance=tag)
+                      f'derived detector response {P} is not (I+Q)/2 restricted to {L}', instance=tag, semantic=True)
         # M6 identities (from the derived matrices of this very tree)
         Rb = _derive(ck, 'M6', pol, pol.make(pol.rot, b), kind, f'{ROT}.mv [{tag} b]')
         Rab = _derive(ck, 'M6', pol, pol.make(pol.rot, a + b), kind, f'{ROT}.mv [{tag} a+b]')
         Rneg = _derive(ck, 'M6', pol, pol.make(pol.rot, -a), kind, f'{ROT}.mv [{tag} -a]')
         if None not in (R, Rb, Rab):
-            ck.expect('M6', (R @ Rb) == Rab, f'{ROT}.mv', 'R(a) R(b) = R(a+b)', 'R(a) R(b) differs from R(a+b)', instance=f'{tag} composition')
+            ck.expect('M6', (R @ Rb) == Rab, f'{ROT}.mv', 'R(a) R(b) = R(a+b)', 'R(a) R(b) differs from R(a+b)', instance=f'{tag} composition', semantic=True)
         if None not in (R, Rt):
-            ck.expect('M6', (Rt @ R) == Matrix.identity(R.rows), f'{ROT}.mv', 'R^T R = I', 'R^T R is not the identity', instance=f'{tag} orthogonality')
+            ck.expect('M6', (Rt @ R) == Matrix.identity(R.rows), f'{ROT}.mv', 'R^T R = I', 'R^T R is not the identity', instance=f'{tag} orthogonality', semantic=True)
         if None not in (R, H, Rneg):
-            ck.expect('M6', (R @ H) == (H @ Rneg), f'{HWP}.mv', 'R(a) H = H R(-a)', 'R(a) H differs from H R(-a)', instance=f'{tag} commutation')
+            ck.expect('M6', (R @ H) == (H @ Rneg), f'{HWP}.mv', 'R(a) H = H R(-a)', 'R(a) H differs from H R(-a)', instance=f'{tag} commutation', semantic=True)
         if None not in (P, H):
-            ck.expect('M6', (P @ H) == P, f'{PLR}.mv', 'P H = P', 'polariser after HWP differs from the polariser', instance=f'{tag} absorption')
+            ck.expect('M6', (P @ H) == P, f'{PLR}.mv', 'P H = P', 'polariser after HWP differs from the polariser', instance=f'{tag} absorption', semantic=True)
         # M7 factories
         _factories(ck, pol, kind, L, tag, a)
     ck.floor('M1', nmat, 16, 'derived Mueller matrices (4 classes x 4 kinds)')
@@ -260,7 +260,7 @@ def _factories(ck, pol: Polarimetry, kind: ClassInfo, L: str, tag: str, a: Poly)
                 ck.bad('M7', what, f'the factory returns {type(op).__name__}, not an operator', instance=inst)
                 continue
             got = pol.matrix(op, kind, what)
-            ck.expect('M7', got == want, what, f'factory denotes {text}', f'factory denotes {got}, expected {text} = {want}', instance=inst)
+            ck.expect('M7', got == want, what, f'factory denotes {text}', f'factory denotes {got}, expected {text} = {want}', instance=inst, semantic=True)
             ck.expect('M7', _same_structure(op, kind), what, f'all factors share one structure, the {kind.name} built by class_for(stokes).structure_for(shape, dtype)',
                       'the factors of the factory product are not all built on the one structure of the requested Stokes kind', instance=inst + ' structure')
         except NonLinear as exc:
